@@ -1825,6 +1825,12 @@ fn policy(s: &Scn, thorough: bool) -> (u32, usize) {
             _ => (1, 1),
         }
     } else {
+        if nt <= 2 && (s.prefix.len() > 20 || s.hang_prop == "C16") {
+            // reclamation scenarios replay a long set-up in every execution and
+            // their operations are long (list surgery): c = 5 does not finish
+            // in 40 minutes
+            return (4, 8);
+        }
         match (nt, long) {
             (0..=2, false) => (5, 4),
             (0..=2, true) => (3, 4),
